@@ -25,6 +25,7 @@ THEOREMS = [
     "SleapVerif.C06.refine_preserves",
     "SleapVerif.C06.refine_crop_index",
     "SleapVerif.C06.refine_bounded_partial",
+    "SleapVerif.C06.refine_bounded_of_nonneg_map",
     "SleapVerif.C06.refine_unbounded_counterexample",
 ]
 
@@ -201,6 +202,15 @@ def oracle_rough(np, a, thr, got):
     return None
 
 
+def patch_signatures(P):
+    """structural predicates of a refinement patch (matched against known_findings signatures)"""
+    if (P < 0).any():
+        return ["negative_patch"]
+    if float(P.sum()) == 0.0:
+        return ["zero_sum_patch"]
+    return []
+
+
 def oracle_refine(np, a, rough, refined, r):
     """count/order/indices/values preserved; each point within half a patch of its cell"""
     if refined and refined[0] == "raise":
@@ -212,7 +222,7 @@ def oracle_refine(np, a, rough, refined, r):
         dx, dy = f[0] - g[0], f[1] - g[1]
         if not (abs(dx) <= half + 1e-4 and abs(dy) <= half + 1e-4):  # NaN/inf fail too
             P = patch_of(np, a, g[3], g[4], int(g[0]), int(g[1]), r)
-            sigs = ["negative_patch"] if (P < 0).any() else []
+            sigs = patch_signatures(P)
             return f"peak #{k} at cell ({g[0]},{g[1]}) moved by ({dx},{dy}), half patch = {half}", sigs
     return None, []
 
@@ -267,7 +277,7 @@ def run_case(chk, I, case, mline, where="generated"):
                 chk.tag("knife:patch_sum~0")
                 continue
             cond = (r + 1) * az / abs(z)
-            tol = 1e-5 * max(1.0, cond)
+            tol = 2e-5 * max(1.0, cond)
             ex, ey = abs(q[0] - float(m[5][0])), abs(q[1] - float(m[5][1]))
             chk.extra["max_refine_err_over_tol"] = max(chk.extra.get("max_refine_err_over_tol", 0.0), max(ex, ey) / tol)
             if not (ex <= tol and ey <= tol):
@@ -298,21 +308,22 @@ def main(chk: Check):
     rng = chk.rng
     torch.manual_seed(rng.randrange(2 ** 31))
 
-    # ---- known finding replay (F-C06)
+    # ---- known finding replays (F-C06 negative patch, F-C06z zero-sum patch)
     for ent in chk.known:
-        if ent["id"] == "F-C06":
-            case = witness_case(ent["witness"])
-            cms = I.tensor(case)
-            got = I.full(cms, case["thr"], "integral", ent["witness"]["patch"])
-            rough = I.rough(cms, case["thr"])
-            why, sigs = oracle_refine(np, cms.numpy(), rough, got, case["r"])
-            m = parse_model(run_driver("C06.lean", [model_line(case, cms)])[0])
+        case = witness_case(ent["witness"])
+        cms = I.tensor(case)
+        got = I.full(cms, case["thr"], "integral", ent["witness"]["patch"])
+        rough = I.rough(cms, case["thr"])
+        why, sigs = oracle_refine(np, cms.numpy(), rough, got, case["r"])
+        m = parse_model(run_driver("C06.lean", [model_line(case, cms)])[0])
+        if ent["signature"] == "negative_patch":
             agrees = (len(got) == len(m) == 1 and m[0][5] not in (None, "inf")
                       and abs(got[0][0] - float(m[0][5][0])) < 1e-3)
-            if not agrees:
-                chk.disagree("F-C06 witness: implementation == model", ent["witness"], str(got), str(m))
-            chk.known_replay("F-C06", still_fails=bool(why) and "negative_patch" in sigs,
-                             detail=f"impl={got} model={m}")
+        else:
+            agrees = len(got) == len(m) == 1 and m[0][5] == "inf"
+        if not agrees:
+            chk.disagree(f"{ent['id']} witness: implementation == model", ent["witness"], str(got), str(m))
+        chk.known_replay(ent["id"], still_fails=bool(why) and ent["signature"] in sigs, detail=f"impl={got} model={m}")
 
     # ---- corpus
     cases = []
@@ -362,7 +373,7 @@ def main(chk: Check):
             chk.knife_edges += 1
             continue
         mx, my = (float(Fraction(s)) for s in m.split())
-        tol = 1e-5 * max(1.0, (r + 1) * az / abs(z))
+        tol = 2e-5 * max(1.0, (r + 1) * az / abs(z))
         if not (abs(dx - mx) <= tol and abs(dy - my) <= tol):
             chk.disagree("integral_regression == Peaks.integralOffsets", {"r": r, "patch_x8": ints}, [dx, dy], [mx, my])
             if min(ints) >= 0 and not (abs(dx) <= p / 2 and abs(dy) <= p / 2):
